@@ -280,7 +280,8 @@ class Model:
         from .normalize import canonicalise_anchor_functions, canonicalise_kernel_params
         pk = {k: v for k, v in trees.items() if k not in ("hll_constants", "hll_bias_experiment")}
         self.renamed_anchors = canonicalise_anchor_functions(pk)
-        from .normalize import positionalise_kernel_calls, positionalise_python_calls
+        from .normalize import positionalise_kernel_calls, positionalise_python_calls, canonicalise_exception_raises
+        canonicalise_exception_raises(trees)
         positionalise_kernel_calls(pk)
         positionalise_python_calls(pk)
         canonicalise_kernel_params(pk)
